@@ -45,4 +45,117 @@ theorem chunk_indep_brngHMAC_start (key iv : Bytes) (cs : List Bytes) :
       (C03.hmacGenStepR cs.flatten.length (C03.hmacGenStart key iv)).2 :=
   (chunk_indep_brngHMAC _ (Nat.zero_le _) (by simp [C03.hmacGenStart, C03.zeros]) cs).1
 
+/-- the hypotheses hold for the state made by `brngHMACStart` and for a state in the middle of a block (5 octets
+handed out, 27 in reserve) — shown without evaluating belt-HMAC -/
+example : (C03.hmacGenStart [1, 2, 3] [4, 5]).reserved ≤ 32 ∧ (C03.hmacGenStart [1, 2, 3] [4, 5]).block.length = 32 := by
+  simp [C03.hmacGenStart, C03.zeros]
+example : (C03.hmacGenStepR 5 (C03.hmacGenStart [1, 2, 3] [4, 5])).1.reserved = 27 ∧
+    (C03.hmacGenStepR 5 (C03.hmacGenStart [1, 2, 3] [4, 5])).1.block.length = 32 := by
+  simp [C03.hmacGenStepR, C03.hmacGenGen, C03.hmacGenFull, C03.hmacGenNext, C03.hmacGenStart,
+    C03.Belt.hmacStepG_length]
+
+/-! ### the common buffering skeleton on a toy block function
+
+`decide` on sessions with the real belt-HMAC / belt-hash does not terminate in reasonable time (minutes for one
+block), so the concrete non-trivial fragmentations are shown on the buffering skeleton `gStep` of LemmasBrng.lean
+with a toy block function; `hmacGenStepR_eq` and `ctrStepR_zeros` say that `brngHMACStepR` and `brngCTRStepR` (on
+zero-filled buffers) ARE `gStep` over `nxH` resp. `nxC`. -/
+
+/-- block number `c + 1` consists of 32 octets `c + 1` -/
+def nxToy (c : Nat) : Nat × Bytes := (c + 1, List.replicate 32 (UInt8.ofNat (c + 1)))
+
+/-- requests 5 + 0 + 40 + 19 = 64: cuts inside blocks, an empty request, the end on a block boundary -/
+example : (gRun nxToy ⟨0, List.replicate 32 0, 0⟩ [5, 0, 40, 19]).2.flatten =
+    (gStep nxToy 64 ⟨0, List.replicate 32 0, 0⟩).2 := by decide
+example : (gRun nxToy ⟨0, List.replicate 32 0, 0⟩ [5, 0, 40, 19]).2.map List.length = [5, 0, 40, 19] := by decide
+/-- … the final states agree on `core` and `reserved` but NOT on the scratch `block` (the one-shot request never
+wrote it): this is why the state part of the theorems is stated modulo `block[0 .. 32 - reserved)` -/
+example : (gRun nxToy ⟨0, List.replicate 32 0, 0⟩ [5, 0, 40, 19]).1.core = (gStep nxToy 64 ⟨0, List.replicate 32 0, 0⟩).1.core ∧
+    (gRun nxToy ⟨0, List.replicate 32 0, 0⟩ [5, 0, 40, 19]).1.reserved = 0 ∧
+    (gStep nxToy 64 ⟨0, List.replicate 32 0, 0⟩).1.reserved = 0 ∧
+    (gRun nxToy ⟨0, List.replicate 32 0, 0⟩ [5, 0, 40, 19]).1.block ≠ (gStep nxToy 64 ⟨0, List.replicate 32 0, 0⟩).1.block := by
+  decide
+/-- … from a state with 7 octets in reserve, requests 3 + 4 + 30 + 1 (the second one empties the reserve
+exactly); the final state has 1 octet in reserve and it agrees -/
+example : (gRun nxToy ⟨4, List.range 32 |>.map UInt8.ofNat, 7⟩ [3, 4, 30, 1]).2.flatten =
+      (gStep nxToy 38 ⟨4, List.range 32 |>.map UInt8.ofNat, 7⟩).2 ∧
+    (gRun nxToy ⟨4, List.range 32 |>.map UInt8.ofNat, 7⟩ [3, 4, 30, 1]).1.reserved = 1 ∧
+    (gRun nxToy ⟨4, List.range 32 |>.map UInt8.ofNat, 7⟩ [3, 4, 30, 1]).1.block.drop 31 =
+      (gStep nxToy 38 ⟨4, List.range 32 |>.map UInt8.ofNat, 7⟩).1.block.drop 31 := by decide
+
+/-! ### brngCTR -/
+
+/-- CHUNK INDEPENDENCE of `brngCTRStepR` for zero-filled buffers (brng.h: the prior content of the buffer is
+additional input; a partial request of `count` zeros feeds `0^count ‖ 0^(32-count)` where the one-shot request
+feeds `0^32` — the same hash input): EVERY list of zero-filled buffers, from every state with `reserved ≤ 32`, a
+32-octet `block` and a well-formed keyed hash state (`filled < 32`).  The final states agree on `mem = s ‖ r`,
+`keySt`, `reserved`, the unread part of `block`, hence on `brngCTRStepG`. -/
+theorem chunk_indep_brngCTR (st : C03.CtrSt) (hr : st.reserved ≤ 32) (hb : st.block.length = 32)
+    (hw : st.keySt.WF) (cs : List Bytes) (hz : zeroBufs cs) :
+    dataOf (outs brngCtrB st (calls RngOp.gen cs)) = (C03.ctrStepR wOctets cs.flatten st).2 ∧
+    (after brngCtrB st (calls RngOp.gen cs)).mem = (C03.ctrStepR wOctets cs.flatten st).1.mem ∧
+    (after brngCtrB st (calls RngOp.gen cs)).keySt = (C03.ctrStepR wOctets cs.flatten st).1.keySt ∧
+    (after brngCtrB st (calls RngOp.gen cs)).reserved = (C03.ctrStepR wOctets cs.flatten st).1.reserved ∧
+    (after brngCtrB st (calls RngOp.gen cs)).block.drop (32 - (after brngCtrB st (calls RngOp.gen cs)).reserved) =
+      (C03.ctrStepR wOctets cs.flatten st).1.block.drop (32 - (C03.ctrStepR wOctets cs.flatten st).1.reserved) ∧
+    C03.ctrStepG (after brngCtrB st (calls RngOp.gen cs)) = C03.ctrStepG (C03.ctrStepR wOctets cs.flatten st).1 := by
+  obtain ⟨h1, ⟨e1, e2, e3, e4⟩, _, _⟩ := ctr_chunks st ⟨hr, hb⟩ hw cs hz
+  exact ⟨h1, e1, e2, e3, e4, by simp only [C03.ctrStepG, C03.CtrSt.s, e1]⟩
+
+/-- … hence every later session (requests with zero-filled buffers, `brngCTRStepG`, relocations) returns the
+same after the fragmented session as after the one-shot request -/
+theorem chunk_indep_brngCTR_later (st : C03.CtrSt) (hr : st.reserved ≤ 32) (hb : st.block.length = 32)
+    (hw : st.keySt.WF) (cs : List Bytes) (hz : zeroBufs cs) (post : List (Call RngOp)) (hp : zeroSession post) :
+    outs brngCtrB (after brngCtrB st (calls RngOp.gen cs)) post =
+      outs brngCtrB (C03.ctrStepR wOctets cs.flatten st).1 post := by
+  obtain ⟨_, h2, h3, h4⟩ := ctr_chunks st ⟨hr, hb⟩ hw cs hz
+  refine ctr_outs_congr post hp _ _ h3 h4 ?_ h2
+  rw [h2.2.1, zeroBufs_flatten cs hz, ← ofGc_toGc st, ctrStepR_zeros wOctets _ hw]
+  show (gStep (nxC wOctets) _ (toGc st)).1.core.2.WF
+  rw [gStep_key]; exact hw
+
+/-- … after `brngCTRStart(key, iv)` (any key, any iv; the prototype has `iv[32]`, the proof does not need it) -/
+theorem chunk_indep_brngCTR_start (key iv : Bytes) (cs : List Bytes) (hz : zeroBufs cs) :
+    dataOf (outs brngCtrB (C03.ctrStart key iv) (calls RngOp.gen cs)) =
+      (C03.ctrStepR wOctets cs.flatten (C03.ctrStart key iv)).2 ∧
+    C03.ctrStepG (after brngCtrB (C03.ctrStart key iv) (calls RngOp.gen cs)) =
+      C03.ctrStepG (C03.ctrStepR wOctets cs.flatten (C03.ctrStart key iv)).1 := by
+  have h := chunk_indep_brngCTR (C03.ctrStart key iv) (Nat.zero_le _) (by simp [C03.ctrStart, C03.zeros])
+    (C03.Belt.hashStepH_WF _ _ C03.Belt.hashStart_WF) cs hz
+  exact ⟨h.1, h.2.2.2.2.2⟩
+
+/-- the hypotheses are satisfiable: zero-filled buffers 5 + 0 + 40, the start state -/
+example : zeroBufs [C03.zeros 5, [], C03.zeros 40] := by unfold zeroBufs; decide
+example : ¬ zeroBufs [C03.zeros 5, [0, 1]] := by unfold zeroBufs; decide
+example : (C03.ctrStart [1, 2, 3] (C03.zeros 32)).keySt.WF := C03.Belt.hashStepH_WF _ _ C03.Belt.hashStart_WF
+example : zeroSession [.op (.gen (C03.zeros 7)), .op .get, .reloc, .op (.gen [])] := by
+  intro buf h
+  simp only [List.mem_cons, Call.op.injEq, RngOp.gen.injEq, reduceCtorEq, List.not_mem_nil, or_false, false_or] at h
+  rcases h with rfl | rfl <;> decide
+
+/-! ### Get-then-continue -/
+
+/-- GET-THEN-CONTINUE for brngCTR: `brngCTRStepG` (it copies `s` out) does not change the state, so whatever
+session follows returns the same as if it had not been called — from every state, for every session -/
+theorem get_observational_brngCTR (st : C03.CtrSt) : GetObservational brngCtrB st :=
+  getObservational_of_sim brngCtrB Eq brngCtrB.step (fun s a i h => by subst h; exact ⟨rfl, rfl⟩)
+    (fun a g hg => by
+      cases g with
+      | gen b => simp [brngCtrB, RngOp.isGet] at hg
+      | get => rfl) st st rfl
+
+/-- the same for brngHMAC, whose bundle has no Get function (`RngOp.get` is a no-op there) -/
+theorem get_observational_brngHMAC (st : C03.HmacGenSt) : GetObservational brngHmacB st :=
+  getObservational_of_sim brngHmacB Eq brngHmacB.step (fun s a i h => by subst h; exact ⟨rfl, rfl⟩)
+    (fun a g hg => by
+      cases g with
+      | gen b => simp [brngHmacB, RngOp.isGet] at hg
+      | get => rfl) st st rfl
+
+/-- `GetObservational` quantifies over non-trivial sessions: e.g. Get between two requests -/
+example (st : C03.CtrSt) (b1 b2 : Bytes) :
+    outs brngCtrB (after brngCtrB st [.op (.gen b1), .op .get]) [.op (.gen b2), .op .get] =
+      outs brngCtrB (after brngCtrB st [.op (.gen b1)]) [.op (.gen b2), .op .get] :=
+  get_observational_brngCTR st [.op (.gen b1)] [.op (.gen b2), .op .get] .get rfl
+
 end Bee2V.C10
